@@ -181,6 +181,11 @@ def finite_amplitude(rec, idx):
             fails.append("2-D volume differs from the area enclosed by the interface")
         if abs(drop.surface_area - arc) > 1e-4 * arc:  # the implementation uses a 256-point sum
             fails.append("2-D surface area differs from the length of the interface")
+        drop.amplitudes = 0.5 * np.asarray(amps)
+        r_half = interface_distance_ref(name, R, 0.5 * np.asarray(amps), phi, phi)
+        if abs(drop.volume - 0.5 * np.sum(r_half**2) * (2 * np.pi / len(phi))) > 1e-10 * vol:
+            fails.append("2-D volume does not follow a change of the amplitudes of the same object")
+        drop.amplitudes = np.asarray(amps)
         d2 = drop.copy()
         d2.volume = 2.5 * vol
         if abs(d2.volume - 2.5 * vol) > 1e-12 * vol or np.any(d2.amplitudes != drop.amplitudes):
@@ -196,6 +201,18 @@ def finite_amplitude(rec, idx):
             v = drop.volume
             if abs(v - vol) > 1e-6 * vol:
                 fails.append("3-D volume differs from the volume enclosed by the interface")
+            # the same object after its shape was changed in place (amplitudes scaled by 1/2, then the radius doubled):
+            # every reported quantity follows the shape the droplet has NOW
+            drop.amplitudes = 0.5 * np.asarray(amps)
+            r_half = interface_distance_ref(name, R, 0.5 * np.asarray(amps), T, P)
+            vol_half = np.sum(ws[:, None] * r_half**3 / 3) * (2 * np.pi / len(phi))
+            if abs(drop.volume - vol_half) > 1e-6 * vol_half:
+                fails.append("3-D volume does not follow a change of the amplitudes of the same object")
+            drop.radius = 2 * R
+            if abs(drop.volume - 8 * vol_half) > 8e-6 * vol_half:
+                fails.append("3-D volume does not follow a change of the radius of the same object")
+            drop.radius = R
+            drop.amplitudes = np.asarray(amps)
         except NotImplementedError:
             pass  # the class does not report a volume
     try:
